@@ -286,7 +286,7 @@ func poolNewType(c *core.Ctx, pool *ssa.Global) (types.Type, *ssa.Function) {
 }
 
 var rulePools = &core.Rule{ID: "R04.3", Min: 6,
-	Doc: "pool typestate: every value taken from a package-level sync.Pool is asserted to the type its New function returns, is re-initialised (reset routine / Reset method, possibly in a getter helper) before any other use, every field of the pooled scanner state that the scanner writes is assigned by the reset routine (the recursion cap, never written after construction, is exempt), and Put receives the same typed value; whatever a function hands to Put (directly, by defer, or through a helper that puts its parameter) it neither uses afterwards nor returns (nor a reader built on it)",
+	Doc: "pool typestate: every value taken from a package-level sync.Pool is asserted to the type its New function returns, is re-initialised (reset routine / Reset method, possibly in a getter helper) before any other use, every field of the pooled scanner state that the scanner writes is assigned by the reset routine (the recursion cap, never written after construction, is exempt), and Put receives the same typed value; whatever a function hands to Put (directly, by defer, or through a helper that puts its parameter) it neither uses afterwards nor returns (nor a reader built on it); a function literal that puts a captured value back and is called on the spot (not deferred) is the last use of that variable",
 	Run: func(c *core.Ctx, s *core.Sink) {
 		jm := getJSON(c)
 		nGet := 0
